@@ -15,11 +15,12 @@ F = CFGF
 
 N = [Opt('int', b'z', 0, 1)]
 MM = [Opt('int', b'a', 0, 1), Opt('sec', b'n', F['MULTI'] | F['TITLE'], None, N), Opt('str', b'b', 0, b'x')]
-S = [Opt('int', b'a', 0, 2), Opt('sec', b'deep', 0, None, N)]
+S = [Opt('int', b'a', 0, 2), Opt('sec', b'deeper', 0, None, [Opt('int', b'z', 0, 9)]), Opt('sec', b'deep', 0, None, N)]
 T = [Opt('int', b'a', 0, 3)]
 ROOT = [Opt('int', b'x', 0, 0), Opt('sec', b's', 0, None, S), Opt('sec', b'm', F['MULTI'], None, MM),
         Opt('sec', b't', F['MULTI'] | F['TITLE'], None, T), Opt('strl', b'l', 0, b'{a,b}'),
-        Opt('sec', b'e', F['MULTI'], None, T),
+        # `ee` is declared before `e`, `deeper` before `deep` (in S): a step names a section exactly, never by prefix
+        Opt('sec', b'ee', 0, None, T), Opt('sec', b'e', F['MULTI'], None, T),
         # a titled section that is NOT multi: its one instance carries a title from the text; a qualifier never resolves
         Opt('sec', b'st', F['TITLE'] | F['NODEFAULT'], None, T)]
 TEXT = (b'm { a = 10 n u { z = 1 } n "v|w" { z = 2 } n "q\'r" { z = 3 } n "b\\\\s" { z = 4 } }\n'
@@ -200,6 +201,13 @@ def broken(p, r):
     out += [re.sub(rb"='([^']*)'", rb"='\1'x", p, 1), re.sub(rb"='([^']*)'", rb"='\1", p, 1), re.sub(rb"='([^']*)'", rb"='\1\\", p, 1),
             re.sub(rb"='(.)", rb"='\\\1", p, 1), re.sub(rb"='([^']+)(.)'", rb"='\1\\\2'", p, 1),
             re.sub(rb'=(\w+)', rb'=\1x', p, 1), p.replace(b's|', b's=0|', 1), p.replace(b's|', b's=x|', 1), p + b'|zz', b'zz|' + p]
+    # a step abbreviated, or extended, by one character names nothing
+    steps = p.split(b'|')
+    for i, st in enumerate(steps[:-1]):
+        nm, eq, rest = st.partition(b'=')
+        if len(nm) > 1 and b"'" not in nm:
+            out.append(b'|'.join(steps[:i] + [nm[:-1] + eq + rest] + steps[i + 1:]))
+        out.append(b'|'.join(steps[:i] + [nm + nm[-1:] + eq + rest] + steps[i + 1:]))
     return [q for q in dict.fromkeys(out) if q != p]
 
 
@@ -209,7 +217,7 @@ def generate(rng, tier):
     for p in good:
         bad += broken(p, rng)
     bad += [b'=', b'|', b'||', b'', b"'", b'm=', b'm=|a', b't=|a', b'st=main|a', b"st='main'|a", b'st=0|a', b'st=main', b's=0|a', b'e|a', b'e=0|a', b'e=0', b'l|a', b'x|a', b'x=0', b'm=1|n|z',
-            b'm=1|n=u|z', b'nosuch', b'nosuch|a', b's|nosuch', b'm=0|n=nosuch|z', b'm=0|n=u', b'm=0|n=u|', b'm|=x', b'm=0|=x', b'm=0|n=u||=|']
+            b'm=1|n=u|z', b'nosuch', b'nosuch|a', b's|de|z', b's|d|z', b's|dee|z', b's|deepe|z', b'e|a', b'de|z', b's|nosuch', b'm=0|n=nosuch|z', b'm=0|n=u', b'm=0|n=u|', b'm|=x', b'm=0|=x', b'm=0|n=u||=|']
     bad = list(dict.fromkeys(bad))
     allp = [(p, 'good') for p in good] + [(p, 'broken') for p in bad]
     secp = list(dict.fromkeys([p.rsplit(b'|', 1)[0] for p in good if b'|' in p] + [b'm', b't=one', b't', b's', b'e', b's|deep', b'm=0|n']))
